@@ -25,6 +25,71 @@ def param_of(g, op):
     return out
 
 
+def _captured_params(F, g, c):
+    """parameters of g that the receiver of call c (inside a closure of g) derives from, through the closure's captures"""
+    cf = c.fn
+    caps = set()
+    def src(k, x):
+        if k == "place" and x.startswith("1|"):
+            parts = x.split("|")
+            for p_ in parts[1:]:
+                if p_.startswith("f:"):
+                    caps.add(int(p_.split(":")[1]))
+                    break
+        return None
+    derives_from(cf, [c.args[0]], src)
+    out = set()
+    # walk up to g through the chain of closure aggregates
+    path = cf.path
+    cur_caps = caps
+    while path != g.path and "::{closure" in path:
+        parent = F.fn(path.rsplit("::{closure", 1)[0])
+        nxt = set()
+        for i, j, dst, rv, line in parent.stmts():
+            if rv[0] == "agg" and rv[1] == "closure:" + path:
+                for n in cur_caps:
+                    if n < len(rv[2]):
+                        if parent is g or parent.path == g.path:
+                            out |= param_of(parent, rv[2][n])
+                        else:
+                            def src2(k, x, acc=nxt):
+                                if k == "place" and x.startswith("1|"):
+                                    for p_ in x.split("|")[1:]:
+                                        if p_.startswith("f:"):
+                                            acc.add(int(p_.split(":")[1]))
+                                            break
+                                return None
+                            derives_from(parent, [rv[2][n]], src2)
+        path = parent.path
+        cur_caps = nxt
+    return out
+
+
+def _len_refusal(F, g, blocks):
+    """True when every block in `blocks` is controlled by a `len(a) != len(b)` refusal in g, directly or through a
+    `?`-propagated helper of this module that contains that refusal"""
+    if not blocks:
+        return False
+    import kerr
+    def direct(fn, bb):
+        gs = guards.guards_of(fn, bb)
+        return any(cd.startswith("Ne(") and cd.count("len(") == 2 and v is False for sb, cd, v in gs)
+    helpers = []
+    for c in g.calls():
+        if c.name in F.bodies and c.name.startswith(C + "::") and g.local_ty(place_local(c.dest)).startswith("std::result::Result<"):
+            h = F.fn(c.name)
+            oks = ok_value_blocks(h)
+            if oks and all(direct(h, r) for r in oks) and "try" in result_consumers(g, c):
+                helpers.append(c)
+    for bb in blocks:
+        if direct(g, bb):
+            continue
+        if any(g.dominates(h.bb, bb) and h.bb != bb for h in helpers):
+            continue
+        return False
+    return True
+
+
 def run(F, R):
     R.rule("C37.R1", "K2/K4", "value(i) readers consult validity; array results carry validity")
     R.rule("C37.R2", "K4", "filter keeps selected NULL slots")
@@ -33,16 +98,26 @@ def run(F, R):
     R.floor("C37.R1", "codec helper functions", len(helpers), 10)
     for g in sorted(helpers, key=lambda x: x.path):
         name = F.bodies[g.path]["name"]
-        vals = [c for c in g.calls() if c.name.rsplit("::", 1)[-1] == "value" and "Array" in c.self_ty]
+        vals = [c for c in F.fam_calls(g.path) if c.name.rsplit("::", 1)[-1] == "value" and "Array" in c.self_ty]
         if not vals:
             continue
         read_params = set()
         for c in vals:
-            read_params |= param_of(g, c.args[0])
+            read_params |= param_of(g, c.args[0]) if c.fn is g else _captured_params(F, g, c)
         valid_params = set()
-        for c in g.calls():
+        for c in F.fam_calls(g.path):
             if c.name.rsplit("::", 1)[-1] in VALID:
-                valid_params |= param_of(g, c.args[0])
+                valid_params |= param_of(c.fn, c.args[0]) if c.fn is g else _captured_params(F, g, c)
+            elif c.fn is g and c.name in F.bodies and c.name.startswith(C + "::"):
+                # a helper of this module that consults the validity of its own parameter(s) (e.g. a null-buffer union)
+                h = F.fn(c.name)
+                hv = set()
+                for hc in F.fam_calls(h.path):
+                    if hc.fn is h and hc.name.rsplit("::", 1)[-1] in VALID:
+                        hv |= param_of(h, hc.args[0])
+                for i, a in enumerate(c.args):
+                    if (i + 1) in hv:
+                        valid_params |= param_of(g, a)
         # delegation: a helper that only post-processes another helper's output (compare_ne over compare_eq) inherits it
         miss = sorted(read_params - valid_params)
         rt = g.local_ty(0)
@@ -51,6 +126,14 @@ def run(F, R):
         if returns_array:
             froms = [c for c in g.calls() if c.name.rsplit("::", 1)[-1] == "from" and c.argtys and c.argtys[0].startswith("std::vec::Vec<")]
             builds_valid = bool(froms) and all(c.argtys[0].startswith("std::vec::Vec<std::option::Option<") for c in froms) or any(c.name.rsplit("::", 1)[-1] in ("new", "try_new", "finish", "with_nulls") and "NullBuffer" in " ".join(c.argtys) for c in g.calls())
+            # an array collected from an iterator whose items are Option<_> carries validity
+            for c in g.calls():
+                if c.name.rsplit("::", 1)[-1] in ("collect", "from_iter") and "Array" in g.local_ty(place_local(c.dest)):
+                    o = origin(g, c.args[0])
+                    if o[0] == "call" and o[1].name.rsplit("::", 1)[-1] == "map" and len(o[1].args) == 2:
+                        co = origin(g, o[1].args[1])
+                        if co[0] == "rv" and co[1][0] == "agg" and co[1][1].startswith("closure:") and F.fn(co[1][1][8:]).local_ty(0).startswith("std::option::Option<"):
+                            builds_valid = True
         if name == "filter_simd":
             continue
         ok = not miss and (builds_valid or not returns_array)
@@ -75,9 +158,10 @@ def run(F, R):
     for name in ("compare_simd", "add_simd", "multiply_simd", "filter_simd"):
         g = F.fn(C + "::" + name)
         lens = [c for c in g.calls() if c.name.rsplit("::", 1)[-1] == "len"]
-        work = [c for c in g.calls() if c.name.startswith(C + "::compare_") or c.name.rsplit("::", 1)[-1] == "value"]
-        okl = False
-        if work:
-            gs = guards.guards_of(g, work[0].bb)
-            okl = any(cd.startswith("Ne(") and cd.count("len(") == 2 and v is False for sb, cd, v in gs)
+        work = [c.bb for c in g.calls() if c.name.startswith(C + "::compare_") or c.name.rsplit("::", 1)[-1] == "value"]
+        # element reads inside closures (`.then(|| arr.value(i))`, `.map(|i| ..)`): the block that builds the closure
+        for i, j, dst, rv, line in g.stmts():
+            if rv[0] == "agg" and rv[1].startswith("closure:") and any(c.name.rsplit("::", 1)[-1] == "value" for c in F.fam_calls(rv[1][8:])):
+                work.append(i)
+        okl = _len_refusal(F, g, sorted(set(work)))
         R.check(okl, "C37.R3", f"{name}:length-refusal", "inputs of different lengths are not refused before the element loop (the shorter one is indexed out of range or silently truncated)", g.loc(), dict(len_calls=len(lens)))
